@@ -430,13 +430,15 @@ def evaluate(ctx, item):
                 builds += 1
                 fr = fresh.res["out"] if fresh.ok else fresh.brief()
                 shared = ""
+                culprit = None
                 for j, pb in enumerate(runs[:-1]):
                     if pb.res["binary"] == b.res["binary"] and not b.compiles:
+                        culprit = [j, idx]
                         shared = (" -- it loaded the binary built by run %d (%s) without compiling; the two configurations differ in %s"
                                   % (j + 1, b.res["binary"].split("/")[-2],
                                      ", ".join("%s: %s -> %s" % (f, jv(cfgs[j].get(f)), jv(c.get(f))) for f in differing(cfgs[j], c))))
                         break
-                return {"status": "fail", "builds": builds,
+                return {"status": "fail", "builds": builds, "culprit": culprit,
                         "what": "%s ran code that does not belong to its configuration: %s%s [the same configuration with an "
                                 "empty cache writes %s]" % (who, describe_mismatch(c, got), shared, fr)}
             if idx == 0 and not b.compiles:
@@ -457,7 +459,7 @@ def evaluate(ctx, item):
                 if b.res["binary"] == r.res["binary"] and b.inode != r.inode and not between:
                     probs.append("the binary file was replaced (inode/mtime/size %s -> %s)" % (r.inode, b.inode))
                 if probs:
-                    return {"status": "fail", "builds": builds,
+                    return {"status": "fail", "builds": builds, "culprit": [j, idx],
                             "what": "%s is textually identical to run %d but did not resolve to the same cache entry: %s "
                                     "[configuration %s]" % (who, j + 1, "; ".join(probs), jv(c))}
         return {"status": "ok", "what": "", "builds": builds}
@@ -587,7 +589,16 @@ class Spec:
         except AssertionError:
             pass
         if "item" in last:
-            stats.res["violation"] = {"item": last["item"], "what": last["v"]["what"], "text": text(last["item"])}
+            item, v = last["item"], last["v"]
+            # the sweep part of a chain is structural, Hypothesis cannot drop it: reduce to the two runs involved
+            if v.get("culprit"):
+                cf = configs_of(item)
+                i, j = v["culprit"]
+                small = {"configs": [cf[i], cf[j]], "muts": ["minimised-from-chain"]}
+                v2 = evaluate(ctx, small)
+                if v2["status"] == "fail":
+                    item, v = small, v2
+            stats.res["violation"] = {"item": item, "what": v["what"], "text": text(item)}
         return stats.res
 
     def replay(self, ctx, item):
